@@ -1294,6 +1294,57 @@ class Effects:
                     return lp, (norm(lp.iter, 200), tg.attr)
             return None, None
 
+        # saved pairs:  P = [(i, i.attr) for i in X] (+= more of the same) ... for i, _ in P: i.attr = None ...
+        #               for i, saved in P: i.attr = saved      - every object gets its own snapshot back
+        def pairs_snapshot(name: str, attr: str):
+            owner, defs = inf.lookup_name(fn, name)
+            snaps = []
+            for d in defs or []:
+                v = d.value
+                if d.kind not in ("assign", "aug") or not isinstance(v, ast.ListComp) or len(v.generators) != 1 or v.generators[0].ifs:
+                    return None
+                el, tg = v.elt, v.generators[0].target
+                if not (isinstance(el, ast.Tuple) and len(el.elts) == 2 and isinstance(tg, ast.Name) and isinstance(el.elts[0], ast.Name) and el.elts[0].id == tg.id
+                        and isinstance(el.elts[1], ast.Attribute) and el.elts[1].attr == attr and isinstance(el.elts[1].value, ast.Name) and el.elts[1].value.id == tg.id):
+                    return None
+                snaps.append(d.node)
+            return snaps or None
+
+        def pair_loop_key(e):
+            lp = parent(e.node)
+            if isinstance(lp, ast.For) and isinstance(lp.target, ast.Tuple) and len(lp.target.elts) == 2 and all(isinstance(x, ast.Name) for x in lp.target.elts) and len(lp.body) == 1 and isinstance(lp.iter, ast.Name):
+                tg = e.node.targets[0]
+                if isinstance(tg.value, ast.Name) and tg.value.id == lp.target.elts[0].id:
+                    snaps = pairs_snapshot(lp.iter.id, tg.attr)
+                    if snaps and all(self.dominated_by(fn, lp, [sn]) for sn in snaps):
+                        return lp, (lp.iter.id, tg.attr)
+            return None, None
+
+        pair_restores = []
+        for e in stores:
+            lp, key = pair_loop_key(e)
+            if lp is None:
+                continue
+            v = e.node.value
+            if isinstance(v, ast.Name) and v.id == lp.target.elts[1].id:
+                out[id(e.node)] = "restore"
+                pair_restores.append((lp, key))
+        for e in stores:
+            if id(e.node) in out:
+                continue
+            lp, key = pair_loop_key(e)
+            if lp is None:
+                continue
+            for rlp, rkey in pair_restores:
+                if rkey != key or rlp is lp:
+                    continue
+                g = g or self.flow.cfg(fn)
+                starts = [n for n in g.nodes_for(lp) if not n.copy]
+                rnodes = set(g.nodes_for(rlp))
+                if g.escapes(starts, lambda n: n in rnodes, [g.exit, g.rexit]) is None:
+                    out[id(e.node)] = "paired"
+                    break
+
         loop_restores = []
         for e in stores:
             lp, key = loop_key(e)
